@@ -44,31 +44,76 @@ def _load_inputs(path):
     return m
 
 
-def _validate(ctx, d, tla, stem, trace, events, replay_base, what):
-    """Two-pass validation of a stateless trace. Every violating event is reported (up to 5)."""
+def _chunks(ctx, trace, events, k):
+    """Split a stateless trace into k files that can be validated independently: the leading
+    "Shape" lines (which later lines reference by line number) are repeated in every file.
+    Returns [(path, head_len, global_index_of_first_event_line)]."""
+    head = 0
+    while head < len(events) and events[head].get("ev") == "Shape":
+        head += 1
+    body = len(events) - head
+    if k <= 1 or body < 400:
+        return [(trace, head, head)]
+    lines = open(trace).read().splitlines()
+    out, per = [], (body + k - 1) // k
+    for c in range(k):
+        lo, hi = head + c * per, min(head + (c + 1) * per, len(events))
+        if lo >= hi:
+            break
+        path = "%s.part%d" % (trace, c)
+        with open(path, "w") as fh:
+            fh.write("\n".join(lines[:head] + lines[lo:hi]) + "\n")
+        out.append((path, head, lo))
+    return out
+
+
+def _run_chunks(ctx, d, tla, cfg, chunks):
+    """Validate the chunks concurrently (one single-worker TLC each: the high-water register of
+    TraceLib needs -workers 1). Returns (all accepted, first rejected global line, bad global lines, outputs)."""
+    from concurrent.futures import ThreadPoolExecutor
+    with ThreadPoolExecutor(max_workers=len(chunks)) as ex:
+        rs = list(ex.map(lambda c: ctx.tlc_trace(d, tla, cfg, c[0], timeout=1500), chunks))
+    ok, first, bad, outs = True, None, [], []
+    for (path, head, lo), r in zip(chunks, rs):
+        outs.append(r["out"])
+        to_global = lambda n: n if n <= head else lo + (n - head)      # 1-based chunk line -> 1-based trace line
+        if not r["accepted"]:
+            ok = False
+            g = to_global(r["line"] or head + 1)
+            first = g if first is None else min(first, g)
+        bad += [to_global(int(x)) for x in re.findall(r'"BAD-EVENT", (\d+)', r["out"])]
+    return ok, first, sorted(set(bad)), outs
+
+
+def _validate(ctx, d, tla, stem, trace, events, replay_base, what, parallel=4):
+    """Two-pass validation of a stateless trace (every event is judged on its own, so the trace
+    is validated in independent chunks). Every violating event is reported (up to 5)."""
     for cfg in (stem + "_full.cfg", stem + "_monitor.cfg"):
         _known_cfg(ctx, d, cfg)
-    r = ctx.tlc_trace(d, tla, stem + "_full.cfg", trace, timeout=1500)
-    _note_known(ctx, r["out"])
-    if r["accepted"]:
+    chunks = _chunks(ctx, trace, events, parallel if len(events) > 30000 else 1)
+    ok, first, _, outs = _run_chunks(ctx, d, tla, stem + "_full.cfg", chunks)
+    for o in outs:
+        _note_known(ctx, o)
+    if ok:
         ctx.traces = len(events)
         ctx.log("E2 full conformance: %d recorded events accepted" % len(events))
         return
-    ev = events[r["line"] - 1] if r["line"] and r["line"] <= len(events) else None
-    ctx.log("E2 full conformance rejected at line %s; running the property monitor" % r["line"])
-    ctx.mismatches.append({"line": r["line"], "event": ev})
+    ev = events[first - 1] if first and first <= len(events) else None
+    ctx.log("E2 full conformance rejected at line %s; running the property monitor" % first)
+    ctx.mismatches.append({"line": first, "event": ev})
     # monitor pass: TLC evaluates the property's implications on every event and reports every
     # event that violates them (BAD-EVENT lines); its post-condition rejects the trace if any
     inputs = _load_inputs(replay_base.get("inputs_file", ""))
-    r2 = ctx.tlc_trace(d, tla, stem + "_monitor.cfg", trace, timeout=1500)
-    _note_known(ctx, r2["out"])
-    if r2["accepted"]:
+    ok2, first2, bad_lines, outs2 = _run_chunks(ctx, d, tla, stem + "_monitor.cfg", chunks)
+    for o in outs2:
+        _note_known(ctx, o)
+    if ok2:
         ctx.traces = len(events)
         ctx.notes.append("conformance mismatch not forbidden by this property (see conformance_mismatches)")
         return
-    bad_lines = [int(x) for x in re.findall(r'"BAD-EVENT", (\d+)', r2["out"])] or [r2["line"] or 1]
+    bad_lines = bad_lines or [first2 or 1]
     ctx.cov["violating_events"] = len(bad_lines)
-    for line in sorted(bad_lines)[:5]:
+    for line in bad_lines[:5]:
         bad = events[line - 1] if line <= len(events) else None
         rep = dict(replay_base)
         rep.pop("inputs_file", None)
@@ -140,8 +185,8 @@ def run_C07(ctx, args):
         c["lens"] = lens[json.dumps(c["shape"], sort_keys=True)]
         cases.append(c)
     cases.sort(key=lambda c: json.dumps(c, sort_keys=True))      # order independent of TLC's enumeration
-    blind = 3000 if quick else 150000
-    reps = 1 if quick else 3
+    blind = 2000 if quick else 150000
+    reps = 1 if quick else 2
     cfile = os.path.join(ctx.scratch, "snap_cases.json")
     with open(cfile, "w") as fh:
         json.dump({"cases": cases, "blind": blind, "reps": reps, "only": rep["only"] if rep else 0}, fh)
@@ -197,8 +242,8 @@ def run_C06(ctx, args):
             e.update({"f": c["f"], "shape2": c["shape2"]})
         cases.append(e)
     cases.sort(key=key)
-    valid = 1000 if quick else 60000
-    blind = 2000 if quick else 150000
+    valid = 600 if quick else 60000
+    blind = 1500 if quick else 150000
     reps = 1 if quick else 2
     cfile = os.path.join(ctx.scratch, "tx_cases.json")
     with open(cfile, "w") as fh:
@@ -249,7 +294,7 @@ def run_C08(ctx, args):
     shapes = sorted((c for c in emitted if c["kind"] == "shape"), key=lambda c: key(c["shape"]))
     sid = {key(c["shape"]): i for i, c in enumerate(shapes)}
     cases = sorted(({"sid": sid[key(c["shape"])], "mut": c["mut"]} for c in emitted if c["kind"] == "msg"), key=key)
-    blind = 6000 if quick else 300000
+    blind = 3000 if quick else 300000
     reps = 1 if quick else 2
     cfile = os.path.join(ctx.scratch, "p2p_cases.json")
     with open(cfile, "w") as fh:
@@ -296,7 +341,7 @@ def run_C30(ctx, args):
     for c in cases:
         c.pop("exp", None)
     cases.sort(key=lambda c: json.dumps(c, sort_keys=True))
-    blind = 4000 if quick else 100000
+    blind = 2000 if quick else 100000
     reps = 1 if quick else 3
     cfile = os.path.join(ctx.scratch, "auth_cases.json")
     with open(cfile, "w") as fh:
